@@ -124,7 +124,8 @@ def run(rep, tier):
     rep.check(ok, "K-wiring", ex.short, "; ".join(body)[:120], ok="getFrames(startTime, endTime) then outputFrames(frames, outputFN)", bad="extractSubwav no longer writes exactly getFrames(startTime, endTime)")
     # outputFrames copies parameters
     of = idx.get("AbstractWav.outputFrames")
-    lists = [n for n in ast.walk(of.node) if isinstance(n, ast.List) and len(n.elts) == 6]
+    cands = [of] + [m for m in of.cls.mro()[0].methods.values() if m.name.startswith("_") and any(isinstance(c, ast.Call) and norm(c.func) == "self." + m.name for c in ast.walk(of.node))]
+    lists = [n for f_ in cands for n in ast.walk(f_.node) if isinstance(n, ast.List) and len(n.elts) == 6]
     want = ["self.nchannels", "self.sampleWidth", "self.frameRate", None, "self.comptype", "self.compname"]
     ok = len(lists) == 1 and all(w is None or norm(e) == w for e, w in zip(lists[0].elts, want)) and any(isinstance(n, ast.Call) and norm(n.func).endswith(".writeframes") and norm(n.args[0]) == of.params[0] for n in ast.walk(of.node))
     rep.check(ok, "K-wiring", of.short, norm(lists[0]) if lists else "setparams", ok="channels, sample width, frame rate and compression copied from the source; the given frames written", bad="outputFrames does not copy the source's parameters / write the given frames")
@@ -176,3 +177,8 @@ def run(rep, tier):
     ok = len(z) == 1 and isinstance(z[0].value, ast.BinOp) and isinstance(z[0].value.op, ast.Mult) and "round(" in norm(z[0].value)
     rep.check(ok, "K-wiring", sil.short, norm(z[0].value) if z else "?", ok="one packed zero sample repeated round(rate*duration) times", bad="silence generator shape changed")
     rep.floor("K-wiring", 9)
+    # splitAudioOnTier crops the whole textgrid to every entry: a secondary tier with nothing under the window
+    # must come out empty, spanning [0, end - start] (shared with C06/C12)
+    from .c12 import lifting
+    rep.rule("L-lifting-crop", "Textgrid.crop on a generic textgrid with an empty secondary tier: no error, per-tier result equals the tier-level crop, span [0, b-a] when rebased")
+    lifting(rep, [("interval", "I", 1), ("point", "E", 0)], only="crop")
